@@ -725,8 +725,53 @@ macro_rules! vproof {
         #[kani::stub(libm::fabsf, c_fabs32)]
         #[kani::stub(libm::floor, c_floor64)]
         #[kani::stub(libm::floorf, c_floor32)]
+        #[kani::stub(f64::ln, c_ln64)]
+        #[kani::stub(f64::exp, c_exp64)]
+        #[kani::stub(f64::powf, c_pow64)]
+        #[kani::stub(f64::powi, c_powi64)]
+        #[kani::stub(f64::sqrt, c_sqrt64)]
         $(#[$m])*
         fn $name() $body
     };
 }
 pub(crate) use vproof;
+
+// ---------------------------------------------------------------------------------------
+// ziggurat contract for harnesses that are about a *caller* of StandardNormal / Exp1
+// (assume-guarantee: the guarantee is established for the real function by the C06 harnesses
+// c06_stdnormal_{rect,wedge,tail} and c06_exp1_{rect,wedge,tail}, outside the recorded
+// known-finding region exp1_tail_u0).  Consumes one word.
+// ---------------------------------------------------------------------------------------
+pub fn c_ziggurat<R: rand::Rng + ?Sized, P, Z>(
+    rng: &mut R,
+    symmetric: bool,
+    _x_tab: crate::ziggurat_tables::ZigTable,
+    _f_tab: crate::ziggurat_tables::ZigTable,
+    _pdf: P,
+    _zero_case: Z,
+) -> f64
+where
+    P: FnMut(f64) -> f64,
+    Z: FnMut(&mut R, f64) -> f64,
+{
+    let _ = rng.next_u64();
+    let r: f64 = kani::any();
+    if symmetric {
+        kani::assume(r >= -13.8 && r <= 13.8);
+    } else {
+        kani::assume(r > 0.0 && r <= 44.5);
+    }
+    r
+}
+
+/// like vproof!, with utils::ziggurat replaced by its contract as well
+macro_rules! vproof_zstub {
+    ($(#[$m:meta])* fn $name:ident() $body:block) => {
+        vproof! {
+            #[kani::stub(crate::utils::ziggurat, c_ziggurat)]
+            $(#[$m])*
+            fn $name() $body
+        }
+    };
+}
+pub(crate) use vproof_zstub;
